@@ -559,10 +559,11 @@ def insert_rules(ctx, report, rule, facts, config):
 def guard_rules(ctx, report, rule, facts, config):
     """C09.GUARD / DOWNCAST / ONCE."""
     prog = ctx.program(facts)
+    # keyed by the enclosing function (a guard built in a closure of an audited function is the same site)
     allowed = {
-        A.FETCH: {A.WORLD + "::try_fetch": "lookup keyed by ResourceId::new::<T>()", A.WORLD + "::try_fetch_by_id::{closure#0}": "id asserted for T by the parent",
+        A.FETCH: {A.WORLD + "::try_fetch": "lookup keyed by ResourceId::new::<T>()", A.WORLD + "::try_fetch_by_id": "id asserted for T (C09.ASSERT)",
                   "<" + A.FETCH + "<T> as std::clone::Clone>::clone": "clone of a Fetch<T>"},
-        A.FETCHMUT: {A.WORLD + "::try_fetch_mut": "lookup keyed by ResourceId::new::<T>()", A.WORLD + "::try_fetch_mut_by_id::{closure#0}": "id asserted for T by the parent",
+        A.FETCHMUT: {A.WORLD + "::try_fetch_mut": "lookup keyed by ResourceId::new::<T>()", A.WORLD + "::try_fetch_mut_by_id": "id asserted for T (C09.ASSERT)",
                      A.ENTRY + "::or_insert_with": "Entry<T>"},
     }
     n = {A.FETCH: 0, A.FETCHMUT: 0}
@@ -572,7 +573,7 @@ def guard_rules(ctx, report, rule, facts, config):
                 if st["k"] == "assign" and st["rv"]["k"] == "agg" and st["rv"].get("adt") in allowed:
                     adt = st["rv"]["adt"]
                     n[adt] += 1
-                    why = allowed[adt].get(b.qname)
+                    why = allowed[adt].get(b.qname.split("::{closure", 1)[0])
                     report.ob(rule, "guard-built/%s/%s" % (adt.rsplit("::", 1)[1], b.qname), why is not None,
                               why or "%s is constructed in %s, outside the audited typed lookups" % (adt.rsplit("::", 1)[1], b.qname), site=b.loc(bi), config=config)
     report.floor(rule, "Fetch constructions", n[A.FETCH], 3, config=config)
